@@ -24,6 +24,7 @@ def parseMap (s : String) : EMap :=
 def step (s : St) (ev : String) : St :=
   match ev.splitOn "~" with
   | ["O", f, m] => evOpen s f (parseMap m)
+  | ["OE", f, m, es] => evOpenWith s f (parseMap m) (some (parseErrs es))
   | ["C", f, es] => evChange s f (parseErrs es)
   | ["W", fs, m] => evWatched s (splitNE fs ",") (parseMap m)
   | ["S", f, m] => evSave s f (parseMap m)
